@@ -7,6 +7,7 @@ use crate::tape::{Decider, St, Tape};
 use crate::val::{Gen, Val};
 use crate::world::*;
 use crate::zoo::{emp, ZooMsg};
+use flatty::prelude::*;
 use flatty::AlignedBytes;
 use flatty_io::{AsyncReceiver, AsyncSender, Receiver, RecvError, Sender};
 use std::sync::Arc;
@@ -42,21 +43,41 @@ pub struct Plan {
     pub anomalies: Vec<(Val, usize)>,
 }
 
+/// Builder operations on the live top-level value: mostly the type's own history (push / pop /
+/// truncate / element writes ...), sometimes a whole-value `assign_in_place` that may fail
+/// (C18 territory: a failure that leaves the value invalid is only a probe, see `make_plan`).
+pub fn tweak_top<M: ZooMsg + ?Sized>(m: &mut M, g: &mut Gen) {
+    if g.chance(1, 6) {
+        let scale = [1usize, 3, 12][g.weighted(&[2, 2, 1])];
+        let other = M::gen(&mut Gen::new(g.d, g.st, scale));
+        // a failed assignment may leave an invalid value behind on the pinned tree (the tag is
+        // written before the size check): no further operation on it
+        if m.assign_in_place(emp::<M>(&other)).is_err() || g.chance(1, 2) {
+            return;
+        }
+    }
+    m.tweak(g);
+}
+
 /// Build `v` (optionally default / tweaked) in `buf` exactly as the sender party will, and
 /// report (size, whole-value-validates).  Panics inside library code are caught by the caller.
 pub fn build_in<M: ZooMsg + ?Sized>(buf: &mut [u8], mp: &MsgPlan) -> Result<(usize, bool, Val), flatty::Error> {
-    let (size, val) = {
+    {
         let m: &mut M = if mp.use_default { M::default_in_place(buf)? } else { M::new_in_place(buf, emp::<M>(&mp.val))? };
         if !mp.tweaks.is_empty() {
             let mut d = Decider::from_tape(Tape { msgs: mp.tweaks.clone(), ..Default::default() });
-            m.tweak(&mut Gen::new(&mut d, St::Msgs, 3));
+            tweak_top::<M>(m, &mut Gen::new(&mut d, St::Msgs, 3));
         }
-        (m.size(), m.read())
-    };
-    // producer-side validity: the bytes the value was mapped from validate (this is the
-    // precondition of SendGuard's unchecked deref), and size() stays inside them
-    let valid = M::validate(buf).is_ok() && size <= buf.len();
-    Ok((size, valid, val))
+    }
+    // producer-side validity first: the bytes the value was mapped from must validate (this is
+    // the precondition of SendGuard's unchecked deref) before anything is read through them
+    if M::validate(buf).is_err() {
+        return Ok((0, false, Val::I(0)));
+    }
+    let m = unsafe { M::from_bytes_unchecked(buf) };
+    let size = m.size();
+    let val = m.read();
+    Ok((size, size <= buf.len(), val))
 }
 
 /// Empirical trailing padding: bytes of the frame never written by the library (emplace the
@@ -188,13 +209,16 @@ pub fn make_plan<M: ZooMsg + ?Sized>(d: &mut Decider, stats: &mut Stats, nspec: 
             let r = guarded(|| -> Result<(usize, bool, Val), flatty::Error> {
                 scratch_store[..cap].fill(0x5A);
                 let scratch = &mut scratch_store[..cap];
-                let (size, val) = {
+                {
                     let m: &mut M = if mp.use_default { M::default_in_place(scratch)? } else { M::new_in_place(scratch, emp::<M>(&mp.val))? };
-                    m.tweak(&mut Gen::new(d, St::Msgs, 3));
-                    (m.size(), m.read())
-                };
-                let valid = M::validate(scratch).is_ok() && size <= scratch.len();
-                Ok((size, valid, val))
+                    tweak_top::<M>(m, &mut Gen::new(d, St::Msgs, 3));
+                }
+                if M::validate(scratch).is_err() {
+                    return Ok((0, false, Val::I(0)));
+                }
+                let m = unsafe { M::from_bytes_unchecked(scratch) };
+                let size = m.size();
+                Ok((size, size <= scratch.len(), m.read()))
             });
             let tw: Vec<u32> = d.rec.msgs[start..].to_vec();
             let r = if canary_hit!() {
@@ -295,7 +319,7 @@ pub fn sender_blocking<M: ZooMsg + ?Sized>(sh: Shared, plan: Arc<Plan>) {
             };
             if !mp.tweaks.is_empty() {
                 let mut d = Decider::from_tape(Tape { msgs: mp.tweaks.clone(), ..Default::default() });
-                g.tweak(&mut Gen::new(&mut d, St::Msgs, 3));
+                tweak_top::<M>(&mut *g, &mut Gen::new(&mut d, St::Msgs, 3));
             }
             let size = g.size();
             let bytes = g.as_bytes();
@@ -518,7 +542,7 @@ pub async fn sender_async<M: ZooMsg + ?Sized>(sh: Shared, plan: Arc<Plan>) {
         };
         if !mp.tweaks.is_empty() {
             let mut d = Decider::from_tape(Tape { msgs: mp.tweaks.clone(), ..Default::default() });
-            g.tweak(&mut Gen::new(&mut d, St::Msgs, 3));
+            tweak_top::<M>(&mut *g, &mut Gen::new(&mut d, St::Msgs, 3));
         }
         let size = g.size();
         let bytes = g.as_bytes();
